@@ -1,6 +1,7 @@
 package main
 
 import (
+	"sync/atomic"
 	"bytes"
 	"fmt"
 	"math"
@@ -469,6 +470,7 @@ func patternsFor(n int) [][]int {
 }
 
 type groupFiles struct {
+	base int // index of the oldest rolled file (a group whose older files were pruned starts above 0)
 	path string
 	cuts []int // byte offsets (in the undamaged log) where a new file starts; files = len(cuts)+1
 	cur  [][]byte
@@ -478,7 +480,7 @@ func (gf *groupFiles) name(i int) string {
 	if i == len(gf.cuts) {
 		return gf.path
 	}
-	return fmt.Sprintf("%s.%03d", gf.path, i)
+	return fmt.Sprintf("%s.%03d", gf.path, gf.base+i)
 }
 
 // lay writes the byte stream C into the group's files, cutting at the original rotation offsets.
@@ -515,9 +517,13 @@ type grRunner struct {
 }
 
 func newGrRunner(lc *logCase, pattern []int, dir string) (*grRunner, error) {
+	return newGrRunnerAt(lc, pattern, dir, 0)
+}
+
+func newGrRunnerAt(lc *logCase, pattern []int, dir string, base int) (*grRunner, error) {
 	os.RemoveAll(dir)
 	os.MkdirAll(dir, 0o700)
-	g := &grRunner{lc: lc, pattern: pattern, gf: &groupFiles{path: filepath.Join(dir, "wal")}}
+	g := &grRunner{lc: lc, pattern: pattern, gf: &groupFiles{path: filepath.Join(dir, "wal"), base: base}}
 	for _, i := range pattern {
 		g.gf.cuts = append(g.gf.cuts, lc.off[i])
 	}
@@ -558,7 +564,7 @@ func (g *grRunner) run(c corr, st *searchStats, ls *localStats, out sink) {
 				out("panic", fmt.Sprintf("GroupReader panicked: %v\n%s", p, debug.Stack()))
 			}
 		}()
-		gr, err := g.wal.Group().NewReader(0)
+		gr, err := g.wal.Group().NewReader(g.wal.Group().MinIndex())
 		if err != nil {
 			out("harness", "NewReader: "+err.Error())
 			return
@@ -666,5 +672,111 @@ func groupReadPhase(logs [][]int) {
 	})
 	if done < int64(len(cases)) {
 		r.NotExhaustive(fmt.Sprintf("group read phase: deadline after %d of %d cases", done, len(cases)))
+	}
+}
+
+// ---------------------------------------------------------------------------------------------
+// groups whose rolled-file indices cross a decimal width (… .009 | .010, .099 | .100, .999 | .1000, .9999 | .10000)
+//
+// A group that has been rotating for a while and pruned its oldest files sits at indices far above 0; the file
+// suffix is "%03d", a MINIMUM width. The files are laid out directly at base .. base+k (a legitimate on-disk state:
+// exactly what rotation + pruning leaves), the group is opened by the real NewWAL and must (1) report min / max
+// index base / base+k, (2) read back the whole log, (3) find every marker, and (4) after one more record and a real
+// rotation keep every older file byte-identical and have advanced its max index by one.
+var indexBases = []int{1, 7, 8, 9, 10, 97, 98, 99, 100, 997, 998, 999, 1000, 9997, 9998, 9999, 10000, 99998}
+
+func groupIndexBasePhase(logs [][]int) {
+	type ibCase struct {
+		toks    []int
+		pattern []int
+		base    int
+	}
+	var cases []ibCase
+	for _, toks := range logs {
+		if len(toks) < 3 {
+			continue
+		}
+		ps := patternsFor(len(toks))
+		for _, p := range ps[1:3] { // a rotation after every record but the last; after every record (empty head)
+			for _, b := range indexBases {
+				cases = append(cases, ibCase{toks, p, b})
+			}
+		}
+	}
+	var crossed [5]int64 // cases whose file indices straddle 10^k
+	done := par.For(int64(len(cases)), 1, phaseExpired, func(i int64) {
+		c := cases[i]
+		lc, err := buildLog(c.toks)
+		if err != nil {
+			return
+		}
+		dir := dirPool.Get().(string)
+		defer dirPool.Put(dir)
+		cur := corr{Kind: "clean"}
+		var st searchStats
+		indexBaseCase(lc, c.pattern, c.base, dir, &st, func(oracle, what string) {
+			cc := cur
+			reportViolation(sig("clean", oracle, fmt.Sprintf("group-at-index-%d", c.base)), fmt.Sprintf("%s laid out as files %d..%d + head: %s", lc.name, c.base, c.base+len(c.pattern)-1, what),
+				caseSpec{Phase: "group-index-base", Tokens: lc.toks, TokenNames: lc.name, Corr: &cc, Pattern: c.pattern, Base: c.base})
+		})
+		for w, p := 0, 10; w < 5; w, p = w+1, p*10 {
+			if c.base < p && c.base+len(c.pattern) >= p {
+				atomic.AddInt64(&crossed[w], 1)
+			}
+		}
+		r.Add("group_index_base_cases", 1)
+		r.Add("searches", st.searches)
+		r.Add("searches_found", st.found)
+		r.Add("searches_not_found", st.notFound)
+	})
+	if done < int64(len(cases)) {
+		r.NotExhaustive(fmt.Sprintf("group index-base phase: deadline after %d of %d cases", done, len(cases)))
+		return
+	}
+	for w, n := range crossed {
+		if n == 0 {
+			r.Vacuous(fmt.Sprintf("group index-base phase: no case whose file indices straddle 10^%d", w+1))
+		}
+	}
+}
+
+// indexBaseCase: one (log, rotation pattern, oldest file index) case of the index-base phase.
+func indexBaseCase(lc *logCase, pattern []int, base int, dir string, st *searchStats, out sink) {
+	g, err := newGrRunnerAt(lc, pattern, dir, base)
+	if err != nil {
+		out("harness", err.Error())
+		return
+	}
+	defer g.close()
+	k := len(pattern)
+	gi := g.wal.Group().ReadGroupInfo()
+	if gi.MinIndex != base || gi.MaxIndex != base+k {
+		out("group-info", fmt.Sprintf("the opened group reports min/max index %d/%d, the files on disk are %d..%d and the head (%d)", gi.MinIndex, gi.MaxIndex, base, base+k-1, base+k))
+		return
+	}
+	g.run(corr{Kind: "clean"}, st, nil, out)
+	// one more record, one real rotation
+	before := map[string][]byte{}
+	for i := 0; i < k; i++ {
+		before[g.gf.name(i)], _ = os.ReadFile(g.gf.name(i))
+	}
+	head, _ := os.ReadFile(g.gf.path)
+	if err := g.wal.WriteSync(consensus.EndHeightMessage{Height: 777}); err != nil {
+		out("harness", "WriteSync: "+err.Error())
+		return
+	}
+	g.wal.Group().RotateFile()
+	for i := 0; i < k; i++ {
+		n := g.gf.name(i)
+		if now, _ := os.ReadFile(n); !bytes.Equal(now, before[n]) {
+			out("rotation-overwrites", fmt.Sprintf("after one more rotation %s changed from %d to %d bytes", filepath.Base(n), len(before[n]), len(now)))
+		}
+	}
+	rolled := fmt.Sprintf("%s.%03d", g.gf.path, base+k)
+	if now, _ := os.ReadFile(rolled); len(now) <= len(head) || !bytes.Equal(now[:len(head)], head) {
+		out("rotation-target", fmt.Sprintf("the head (%d bytes + one record) was not rolled to %s (%d bytes there)", len(head), filepath.Base(rolled), len(now)))
+	}
+	if gi := g.wal.Group().ReadGroupInfo(); gi.MinIndex != base || gi.MaxIndex != base+k+1 {
+		out("group-info", fmt.Sprintf("after one more rotation the group reports min/max index %d/%d, want %d/%d", gi.MinIndex, gi.MaxIndex, base, base+k+1))
 	}
 }
